@@ -14,19 +14,19 @@ open Qx Qx.Bytes Qx.Crypto
 
 /-! ## SCRAM -/
 
-/-- **The SCRAM messages are those of RFC 5802 §7.**  For every credential and every server-first message the
-client accepts: the first message is `n,,n=<user>,r=<c-nonce>` and the final one is
-`c=biws,r=<nonce of the server-first message>,p=<base64 of some proof>`.
-The user name is sent raw, which is the RFC's `saslname` only if it contains neither `,` nor `=` — hence the
-hypothesis (the excluded point is `C06_defect_scram_username_not_escaped`). -/
-theorem scram_messages_rfc (C : Crypto) (cr : Cred) (sf : Bytes)
-    (huser : (44 : UInt8) ∉ cr.user ∧ (61 : UInt8) ∉ cr.user) :
+/-- **The SCRAM messages are those of RFC 5802 §7.**  For every credential — *no hypothesis on the user name any more*:
+`,` and `=` are sent as `=2C` / `=3D` since repo commit 43097ab, and the two `replace` calls of the code are proved
+equal to the RFC's `saslname` — and every server-first message the client accepts: the first message is
+`n,,n=<saslname(user)>,r=<c-nonce>` and the final one is `c=biws,r=<nonce of the server-first message>,p=<base64 of some proof>`.
+What remains outside the statement: the user name is taken in its normalised form (no SASLprep in the code), and the
+client nonce is whatever `generateNonce` produced (base64 text, hence comma-free, in production). -/
+theorem scram_messages_rfc (C : Crypto) (cr : Cred) (sf : Bytes) :
     (scramStep C cr {} []).2 = some (Ref.clientFirst cr.user cr.cnonce)
     ∧ ∀ cf, (scramStep C cr (scramStep C cr {} []).1 sf).2 = some cf →
         ∃ proof, cf = Ref.clientFinalWithoutProof (gs2Get (parseGS2 sf) 114) ++ [44, 112, 61] ++ Base64.encode proof := by
   constructor
   · rw [scram_step0]
-    simp [Ref.clientFirst, saslName_id cr.user huser.1 huser.2, scramBare, sGs2Header, sNEq, sCommaREq]
+    simp [Ref.clientFirst, scramSaslName_eq, scramBare, sGs2Header, sNEq, sCommaREq]
   · intro cf h
     rw [scram_step0] at h
     simp only [scramStep, scramSt1] at h
@@ -35,17 +35,6 @@ theorem scram_messages_rfc (C : Crypto) (cr : Cred) (sf : Bytes)
     · simp at h
     · simp only [Option.some.injEq] at h
       exact ⟨_, by rw [← h, scramFinalBare_eq]; rfl⟩
-
-/-- **Today's code does not escape the user name**: for the user name `a,b` the client-first message is not the one
-RFC 5802 prescribes (`n,,n=a=2Cb,r=…`); the client sends `n,,n=a,b,r=…`, which a conforming server parses as user
-`a` followed by a malformed attribute. -/
-theorem C06_defect_scram_username_not_escaped :
-    ¬ ∀ (C : Crypto) (cr : Cred), (scramStep C cr {} []).2 = some (Ref.clientFirst cr.user cr.cnonce) := by
-  intro h
-  have := h ⟨id, fun _ m => m, fun p _ _ => p⟩ { user := [97, 44, 98], cnonce := [120] }
-  rw [scram_step0] at this
-  revert this
-  decide
 
 /-- **Any conforming server holding the same secret accepts** (RFC 5802 §3).  For every user, password, salt,
 iteration count (1 … 2³¹−1, the range the client accepts) and pair of comma-free nonces: the client answers the
@@ -266,26 +255,16 @@ theorem digest_other_password_condition_partial (md5 : Bytes → Bytes) (cr : Cr
     · simp at h
   · intro h; rw [if_pos h.symm]; rfl
 
-/-- **`parseMessage` inverts `serializeMessage`** on every directive map (a `QMap`: keys strictly ascending) whose keys
-contain no `=` and no surrounding white space, **provided no value ends in a backslash**.  The hypothesis is forced
-by the unquoting loop (a closing quote preceded by a backslash is skipped even when that backslash is itself
-escaped) — see `C06_defect_digest_trailing_backslash`. -/
+/-- **`parseMessage` inverts `serializeMessage`** on every directive map, *whatever the values* (the "no value ends in
+a backslash" hypothesis is gone since repo commit aca51c7: the quoted-pair scanner finds the real closing quote).
+The remaining hypotheses describe the domain, not a defect: `m` is the content of a `QMap` (keys strictly
+ascending), and a key contains no `=` and no surrounding white space — the grammar has no way to quote a key
+(`parseMessage` cuts it at the first `=` and trims it), and RFC 2831 keys are tokens. -/
 theorem digest_parse_serialize (m : DMap)
     (hmap : m.Pairwise fun a b => bytesLt a.1 b.1 = true)
-    (hkeys : ∀ e ∈ m, (61 : UInt8) ∉ e.1 ∧ trim e.1 = e.1)
-    (h : ∀ e ∈ m, e.2.getLast? ≠ some 92) :
+    (hkeys : ∀ e ∈ m, (61 : UInt8) ∉ e.1 ∧ trim e.1 = e.1) :
     parseMessage (serializeMessage m) = m :=
-  parse_serialize m hmap hkeys h
-
-/-- **The excluded point fails on today's code**: the one-entry map `username ↦ a b\` is serialized correctly as
-`username="a b\\"` but parsed back as the empty map ("Unfinished quoted string"). -/
-theorem C06_defect_digest_trailing_backslash :
-    ¬ ∀ m : DMap, (m.Pairwise fun a b => bytesLt a.1 b.1 = true) → (∀ e ∈ m, (61 : UInt8) ∉ e.1 ∧ trim e.1 = e.1) →
-        parseMessage (serializeMessage m) = m := by
-  intro h
-  have := h [(kUsername, [97, 32, 98, 92])] (by simp) (by decide)
-  revert this
-  decide
+  parse_serialize m hmap hkeys
 
 /-- **Today's serializer leaves simple values unquoted** although RFC 2831 §2.1.2 prescribes
 `username="…"`, `realm="…"`, `nonce="…"`, `cnonce="…"`, `digest-uri="…"` with mandatory quotes: user `u` goes out as
@@ -343,44 +322,70 @@ theorem ht_other_token_condition_partial (C : Crypto) (user tok tok' : Bytes) :
     Ref.htMessage C user tok' = Ref.htMessage C user tok ↔ C.HMAC tok' sInitiator = C.HMAC tok sInitiator := by
   simp [Ref.htMessage, sInitiator]
 
-/-! ## The managers: is success reported only after the server proved itself? -/
+/-! ## The managers: success is reported only after the server proved itself -/
 
-/- Full statement (FALSE on today's code, see the defect theorems):
-   ∀ C md5 cr sasl2 els, let st := (mgrRun C md5 cr (mgrStart C md5 cr sasl2 .scram).1 els).1;
-     st.result = some .success → isScram st = true → serverSignatureVerified st = true                       -/
+/-- **A SCRAM login is never reported successful unless the server has proved knowledge of the password** — FULL
+statement: for every hash family, credential, both managers (`sasl2 = false`: `SaslManager`, `true`: `Sasl2Manager`)
+and EVERY server script `els` (any elements in any order: challenges, `<success/>` with or without data,
+failures, continues, junk): if the reported result is success and the mechanism is SCRAM, the server signature
+was compared equal (`m_serverVerified`, whose meaning is `scram_verified_only_by_comparison`).
+(Before repo commit 0b21ae7 this was false — witness `els = [<success/>]`, kept first in the harness corpus.) -/
+theorem success_only_after_server_proof (C : Crypto) (md5 : Bytes → Bytes) (cr : Cred) (sasl2 : Bool) (els : List El) :
+    (mgrRun C md5 cr (mgrStart C md5 cr sasl2 .scram).1 els).1.result = some .success →
+    isScram (mgrRun C md5 cr (mgrStart C md5 cr sasl2 .scram).1 els).1 = true →
+    serverSignatureVerified (mgrRun C md5 cr (mgrStart C md5 cr sasl2 .scram).1 els).1 = true :=
+  fun h _ => (mgrInv_run C md5 cr _ els (mgrInv_start C md5 cr sasl2 .scram)).2 h
 
-/-- **Today's managers report success without any server proof** (both `SaslManager`, `sasl2 = false`, and
-`Sasl2Manager`, `sasl2 = true`): after `<auth/>` was sent for a SCRAM mechanism, a bare `<success/>` finishes the
-task with success although no server signature was ever seen. -/
-theorem C06_defect_early_success (sasl2 : Bool) :
-    ¬ ∀ (C : Crypto) (md5 : Bytes → Bytes) (cr : Cred) (els : List El),
-        (mgrRun C md5 cr (mgrStart C md5 cr sasl2 .scram).1 els).1.result = some .success →
-        isScram (mgrRun C md5 cr (mgrStart C md5 cr sasl2 .scram).1 els).1 = true →
-        serverSignatureVerified (mgrRun C md5 cr (mgrStart C md5 cr sasl2 .scram).1 els).1 = true := by
-  intro h
-  have := h ⟨id, fun k _ => k, fun p _ _ => p⟩ id {} [.success none]
-  simp [mgrRun, mgrStep, mgrStart, mechInit, mechRespond, scram_step0, isScram, serverSignatureVerified, scramSt1] at this
+/-- …the same for whatever mechanism the exchange was started with (for mechanisms without mutual
+authentication `serverSignatureVerified` is `true` by definition, so this adds nothing for them; it shows the
+SCRAM guarantee does not depend on how `isScram` is read). -/
+theorem success_implies_mechanism_verified (C : Crypto) (md5 : Bytes → Bytes) (cr : Cred) (sasl2 : Bool) (k : MechKind)
+    (els : List El) :
+    (mgrRun C md5 cr (mgrStart C md5 cr sasl2 k).1 els).1.result = some .success →
+    serverSignatureVerified (mgrRun C md5 cr (mgrStart C md5 cr sasl2 k).1 els).1 = true :=
+  (mgrInv_run C md5 cr _ els (mgrInv_start C md5 cr sasl2 k)).2
 
-/-- …and the success *data* is never looked at: a `<success/>` carrying a wrong server-final message (SASL2
-`<additional-data/>`, RFC 6120 §6.4.6 success data) is accepted just the same, even after the server-first round. -/
-theorem success_data_never_consulted (C : Crypto) (md5 : Bytes → Bytes) (cr : Cred) (st : MgrSt)
-    (d : Option Bytes) (h : st.pending = true) :
-    (mgrStep C md5 cr st (.success d)).1.result = some .success
-    ∧ (mgrStep C md5 cr st (.success d)).1.mech = st.mech := by
-  simp [mgrStep, h]
+/-- **A bare `<success/>` before the server signature was seen is refused** by both managers (error
+"Server did not prove knowledge of the password"), wherever in the exchange it arrives. -/
+theorem bare_success_is_refused (C : Crypto) (md5 : Bytes → Bytes) (cr : Cred) (st : MgrSt) (s : ScramSt)
+    (hp : st.pending = true) (hm : st.mech = .scram s) (hv : s.verified = false) (hs : s.step ≠ 2) :
+    (mgrStep C md5 cr st (.success none)).1.result = some .notProved := by
+  have hstep : ∀ d, ¬ (((scramStep C cr s d).2.isSome = true) ∧ (scramStep C cr s d).1.verified = true) := by
+    intro d ⟨_, h2⟩
+    rcases scram_verified_only_by_comparison C cr s d h2 with h | ⟨h, _⟩
+    · rw [hv] at h; cases h
+    · exact hs h
+  cases hs2 : st.sasl2 with
+  | true => simp [mgrStep, hp, hm, mechVerified, hv, hs2]
+  | false =>
+    have := hstep []
+    simp only [mgrStep, hp, hm, mechVerified, hv, hs2, mechRespond, Bool.not_true, Bool.false_eq_true, if_false,
+      Option.getD_none]
+    split
+    · rename_i hc
+      simp only [Bool.and_eq_true] at hc
+      exact absurd hc this
+    · rfl
 
-/-- **Partial: if the server sends its final message as a challenge first, success implies the proof was checked.**
-For every credential, both managers and every element sequence `pre ++ [<success/>] ++ post` in which `pre`
-contains no `<success/>` and at least two `<challenge/>` elements (server-first and server-final): if the reported
-result is success then the server signature was verified.  What is missing for the full statement is exactly the
-case of fewer than two challenges before `<success/>` (`C06_defect_early_success`). -/
-theorem success_only_after_server_proof_partial (C : Crypto) (md5 : Bytes → Bytes) (cr : Cred) (sasl2 : Bool)
-    (pre post : List El) (d : Option Bytes)
-    (hpre : ∀ e ∈ pre, isSuccess e = false)
-    (hch : 2 ≤ (pre.filter isChallenge).length) :
-    (mgrRun C md5 cr (mgrStart C md5 cr sasl2 .scram).1 (pre ++ El.success d :: post)).1.result = some .success →
-    serverSignatureVerified (mgrRun C md5 cr (mgrStart C md5 cr sasl2 .scram).1 (pre ++ El.success d :: post)).1 = true :=
-  success_after_two_challenges C md5 cr sasl2 pre post d hpre hch
+/-- **The server-final message may arrive as success data** (RFC 6120 §6.4.6, SASL2 `<additional-data/>`): in step 2 a
+`<success/>` carrying `v=<base64 of the expected signature>` is verified and accepted; carrying anything whose
+`v=` does not decode to the expected signature it is refused. -/
+theorem success_data_is_verified (C : Crypto) (md5 : Bytes → Bytes) (cr : Cred) (st : MgrSt) (s : ScramSt) (d : Bytes)
+    (hp : st.pending = true) (hm : st.mech = .scram s) (hv : s.verified = false) (hs : s.step = 2) :
+    (d = [118, 61] ++ Base64.encode s.serverSig → (mgrStep C md5 cr st (.success (some d))).1.result = some .success)
+    ∧ (Base64.decodeLenient (gs2Get (parseGS2 d) 118) ≠ s.serverSig →
+        (mgrStep C md5 cr st (.success (some d))).1.result = some .notProved) := by
+  constructor
+  · intro hd
+    subst hd
+    have h2 : scramStep C cr s (118 :: 61 :: Base64.encode s.serverSig)
+        = ({ s with step := 3, verified := true }, some []) := scram_step2_honest C cr s hs
+    cases hs2 : st.sasl2 <;>
+      simp [mgrStep, hp, hm, mechVerified, hv, hs2, mechRespond, h2]
+  · intro hd
+    have h2 := (scram_rejects_bad_signature C cr s d hs hd).1
+    cases hs2 : st.sasl2 <;>
+      simp [mgrStep, hp, hm, mechVerified, hv, hs2, mechRespond, h2]
 
 /-- **A refused challenge ends the attempt with an error, never with success**: whatever the mechanism, when
 `respond` returns nothing the task is finished with "Could not respond to SASL challenge" and later elements
@@ -446,16 +451,26 @@ example : Ref.plainServerVerify [117] [113] (Ref.plainMessage [117] [112]) = fal
 example : htStep toyCrypto { toyCred with htMech := 3, token := some (3, [116]) } false []
     = (true, some [117, 0, 1, 2]) := by decide
 
-/-- the manager: the honest server script (two challenges, then `<success/>`) meets the hypotheses of
-the partial theorem and does end in a verified success; the bare `<success/>` ends in an unverified one -/
+/-- the manager: the honest server script (two challenges, then `<success/>`) ends in a verified
+success; the bare `<success/>` is refused by both managers -/
 example : (mgrRun toyCrypto id toyCred (mgrStart toyCrypto id toyCred false .scram).1
       [.challenge [114, 61, 120, 121, 44, 115, 61, 81, 81, 61, 61, 44, 105, 61, 49], .challenge [118, 61, 65, 103, 65, 61], .success none]).1.result
     = some .success := by decide
 example : serverSignatureVerified (mgrRun toyCrypto id toyCred (mgrStart toyCrypto id toyCred true .scram).1
       [.challenge [114, 61, 120, 121, 44, 115, 61, 81, 81, 61, 61, 44, 105, 61, 49], .challenge [118, 61, 65, 103, 65, 61], .success none]).1
     = true := by decide
-example : (mgrRun toyCrypto id toyCred (mgrStart toyCrypto id toyCred false .scram).1 [.success none]).1.result = some .success
-    ∧ serverSignatureVerified (mgrRun toyCrypto id toyCred (mgrStart toyCrypto id toyCred false .scram).1 [.success none]).1 = false := by
+example : (mgrRun toyCrypto id toyCred (mgrStart toyCrypto id toyCred false .scram).1 [.success none]).1.result = some .notProved
+    ∧ (mgrRun toyCrypto id toyCred (mgrStart toyCrypto id toyCred true .scram).1 [.success none]).1.result = some .notProved := by
   decide
+
+/-- the server-final message delivered as success data after one challenge is accepted and verified -/
+example : (mgrRun toyCrypto id toyCred (mgrStart toyCrypto id toyCred true .scram).1
+      [.challenge [114, 61, 120, 121, 44, 115, 61, 81, 81, 61, 61, 44, 105, 61, 49], .success (some [118, 61, 65, 103, 65, 61])]).1.result
+    = some .success := by decide
+
+/-- the former witnesses now behave: user `a,b` is escaped, a value ending in a backslash round-trips -/
+example : (scramStep toyCrypto { toyCred with user := [97, 44, 98] } {} []).2
+    = some [110, 44, 44, 110, 61, 97, 61, 50, 67, 98, 44, 114, 61, 120] := by decide
+example : parseMessage (serializeMessage [(kUsername, [97, 32, 98, 92])]) = [(kUsername, [97, 32, 98, 92])] := by decide
 
 end Qx.C06
